@@ -5,6 +5,7 @@ import Starcal.Drv.Tod
 import Starcal.Drv.ByNameDrv
 import Starcal.Drv.RulesDrv
 import Starcal.Drv.SetDrv
+import Starcal.Drv.LockDrv
 /-! Line-protocol driver: runs the executable definitions of the model (the very
     definitions the theorems are about) on requests read from stdin, one response
     line per request. See DESIGN.md section 10b. -/
@@ -20,12 +21,13 @@ def dispatch (toks : List String) : String :=
   | "rules" :: rest => rulesRequest rest
   | "text" :: rest => textRequest rest
   | "set" :: rest => setRequest rest
+  | "locks" :: rest => locksRequest rest
   | _ => "bad-request"
 
 partial def loop (inp : IO.FS.Stream) (out : IO.FS.Stream) : IO Unit := do
   let line ← inp.getLine
   if line.isEmpty then return ()
-  let l := (line.dropRightWhile (fun c => c == '\n' || c == '\r'))
+  let l := String.ofList (line.toList.reverse.dropWhile (fun c => c == '\n' || c == '\r')).reverse
   let resp := dispatch (l.splitOn " ")
   out.putStrLn resp
   loop inp out
